@@ -140,7 +140,7 @@ func classifyC01(r *vf.Rec, m *model.Packet, frame []byte) (bool, string) {
 func TestC01(t *testing.T) {
 	r := vf.NewRec("C01")
 	defer r.Finish(t)
-	guard.StartWatchdog(*vf.Out, "C01")
+	guard.StartWatchdog(*vf.Out, vf.Label("C01"))
 
 	for _, rf := range r.LoadReplays(t) {
 		var c caseC01
